@@ -363,6 +363,18 @@ Proof.
   exact (clean_run_trace _ _ _ _ _ Hrun).
 Qed.
 
+(* PROVED, every variant and layout: the same reading for ANY run whose n steps are
+   all Next - in particular the runs concluded by C01_rimiss_image_from_files,
+   C01_rimifull_image_from_files and C01_fixer_image_from_files (their conclusion
+   contains run (gv c) L n s0 = (Next s', n)). *)
+Theorem C01_all_next_run_fetches_inside_code : forall v L n s s',
+  run v L n s = (Next s', n) ->
+  List.length (run_pcs v L n s) = n /\
+  Forall (fun p => p <> halt_at L /\ p mod 4 = 0 /\ code_lo L <= p /\ p + 4 <= code_hi L)
+         (run_pcs v L n s).
+Proof. exact clean_run_trace. Qed.
+
+Print Assumptions C01_all_next_run_fetches_inside_code.
 Print Assumptions C01_plain_run_fetches_inside_code.
 Print Assumptions C01_fixer_image_from_files.
 Print Assumptions C01_fixer_image_from_files_nonvacuous.
